@@ -136,6 +136,39 @@ class Lengths:
         self.notes = []
         self._slot_memo = {}
         self._active = set()
+        self.obj_attr = {}  # (param name, attr) -> Poly
+        self._bind_objects()
+
+    def _bind_objects(self):
+        """Lengths of key / token attributes, from where the objects are constructed (_Gen / _Trap)."""
+        s = self.scheme
+        try:
+            gen, trap, enc, search = s.method("_Gen"), s.method("_Trap"), s.method("_Enc"), s.method("_Search")
+        except Exception:
+            return
+        for maker, ci, users in ((gen, s.key_cls, [enc.params[1], trap.params[1]]), (trap, s.token_cls, [search.params[2]])):
+            if ci is None:
+                continue
+            attrs = s.ctor_positional(ci)
+            ft = fn_terms(self.repo, maker)
+            for n in ft.cfg.nodes:
+                if n.kind != "return" or n.stmt.value is None:
+                    continue
+                t = ft.term(n.stmt.value, n.id)
+                if not (t[0] == "call" and t[1].endswith(".__init__")):
+                    continue
+                args = list(t[2])
+                if len(args) == 1 and args[0][0] == "star":
+                    inner = args[0][1]
+                    if inner[0] == "call" and inner[1] == "tuple" and inner[2]:
+                        inner = inner[2][0]
+                    if inner[0] == "comp":
+                        args = [inner[2]] * len([a for a in attrs if a])
+                for i, a in enumerate(args):
+                    if i < len(attrs) and attrs[i]:
+                        p = self.length(a)
+                        for u in users:
+                            self.obj_attr[(u, attrs[i])] = p
 
     # -- configuration slots -----------------------------------------------------
     def slot_value(self, name):
@@ -340,6 +373,10 @@ class Lengths:
                     return Poly.atom("phi{%s}" % " | ".join(sorted(els)))
             if self._is_identifier(t):
                 return self.slot_value("param_identifier_size") if "param_identifier_size" in self.cf.slot_term else Poly.atom("idsize")
+        if tag == "attr" and t[1][0] == "param" and (t[1][1], t[2]) in self.obj_attr:
+            return self.obj_attr[(t[1][1], t[2])]
+        if tag == "proj" and t[1][0] == "comp":
+            return self.length(t[1][2])
         if tag == "proj" and isinstance(t[2], int):
             comps = {}
             for x in walk(t[1]):
